@@ -12,6 +12,12 @@
      fit_states m 0 cbs s0   the states left behind by each completed fit-loop iteration
      epoch_event ph e   e is an event only _run_epoch(ph) emits (phase ph; never EvCb / EvLocal)
 
+   Tie to the source: coq/gen/Gen_C15.v is REGENERATED on every run from BaseSolver.fit / global_epoch by the
+   fail-closed emitter tools/props/t_C15.py (resets at entry, `for local_epoch in range(max_epochs)`, the early `break`
+   on _stop_training, local-epoch assignment, train epoch, valid epoch, callbacks in order).  C15_gen_fit states that
+   the generated loop, instantiated with the model's operations, IS the model's fit for all inputs; C15_gen_stop_* and
+   C15_gen_callbacks_once_in_order are stated directly on the generated loop.
+
    History: findings F6 (closure optimisers accumulated a custom metric on every closure evaluation) and F11
    (fit(0) left local_epoch at its old value) were repaired in /repo (commits ee125e7, f844591); the model
    follows the repaired code and the two theorems are now proved at FULL strength (C15_metric_mean_closure,
@@ -19,7 +25,8 @@
    tools/props/C15.py report it. *)
 From Coq Require Import List Arith Bool Lia.
 From ND.model Require Import Solver.
-From ND.proofs Require Import C15_base C15_bookkeeping.
+From ND.gen Require Import Gen_C15.
+From ND.proofs Require Import C15_base C15_bookkeeping C15_gen.
 Import ListNotations.
 
 Section P_C15.
@@ -158,6 +165,15 @@ Section P_C15.
   Local Notation fit_zero := (C15_bookkeeping.fit_zero P G B V O C loss gradl metric nmetrics gzero gadd vzero vadd vdivn vltb requires_closure opt_step closure_opt draw).
   Local Notation run_epoch_events_any := (C15_bookkeeping.run_epoch_events_any P G B V O C loss gradl metric nmetrics gzero gadd vzero vadd vdivn vltb requires_closure opt_step closure_opt draw).
   Local Notation callbacks_once_in_order := (C15_bookkeeping.callbacks_once_in_order P G B V O C loss gradl metric nmetrics gzero gadd vzero vadd vdivn vltb requires_closure opt_step closure_opt draw).
+  Local Notation assign_local_epoch := (C15_gen.assign_local_epoch P G V O C).
+  Local Notation gen_callbacks_is_model := (C15_gen.gen_callbacks_is_model P G V O C).
+  Local Notation gen_body_running := (C15_gen.gen_body_running P G B V O C loss gradl metric nmetrics gzero gadd vzero vadd vdivn vltb requires_closure opt_step closure_opt draw).
+  Local Notation gen_loop_stopped := (C15_gen.gen_loop_stopped P G B V O C loss gradl metric nmetrics gzero gadd vzero vadd vdivn vltb requires_closure opt_step closure_opt draw).
+  Local Notation gen_loop_is_model := (C15_gen.gen_loop_is_model P G B V O C loss gradl metric nmetrics gzero gadd vzero vadd vdivn vltb requires_closure opt_step closure_opt draw).
+  Local Notation gen_fit_is_model := (C15_gen.gen_fit_is_model P G B V O C loss gradl metric nmetrics gzero gadd vzero vadd vdivn vltb requires_closure opt_step closure_opt draw).
+  Local Notation gen_global_epoch_is_model := (C15_gen.gen_global_epoch_is_model P G V O C).
+  Local Notation gen_stop_ends_fit := (C15_gen.gen_stop_ends_fit P G B V O C loss gradl metric nmetrics gzero gadd vzero vadd vdivn vltb requires_closure opt_step closure_opt draw).
+  Local Notation gen_callbacks_once_in_order := (C15_gen.gen_callbacks_once_in_order P G B V O C loss gradl metric nmetrics gzero gadd vzero vadd vdivn vltb requires_closure opt_step closure_opt draw).
 
   Theorem C15_global_epoch_inv : forall (ops : list op) p o c l nbt nbv,
     let s := run_ops ops (init p o c l nbt nbv) in
@@ -244,5 +260,29 @@ Section P_C15.
       count (is_begin Train) lt = (if nb_train s =? 0 then 0 else 1) /\
       count (is_begin Valid) lv = (if nb_valid s =? 0 then 0 else 1).
   Proof. exact callbacks_once_in_order. Qed.
+
+  (* ---- the loop generated from the source *)
+  Theorem C15_gen_fit : forall m (cbs : list callback) (s : state),
+    gen_fit state callback (@set_stop P G V O C) (@set_max_local P G V O C) assign_local_epoch (@stop P G V O C)
+            (run_epoch Train) (run_epoch Valid) (fun i cb s => run_cb i cb s) m cbs s = fit m cbs s.
+  Proof. exact gen_fit_is_model. Qed.
+
+  Theorem C15_gen_global_epoch : forall s : state, global_epoch s = gen_global_epoch (h_train s).
+  Proof. exact gen_global_epoch_is_model. Qed.
+
+  Theorem C15_gen_stop_ends_fit : forall (cbs : list callback) (s : state),
+    stop s = true -> forall r i,
+      gen_fit_loop state callback assign_local_epoch (@stop P G V O C) (run_epoch Train) (run_epoch Valid)
+                   (fun i cb s => run_cb i cb s) r i cbs s = s.
+  Proof. exact gen_stop_ends_fit. Qed.
+
+  Theorem C15_gen_callbacks_once_in_order : forall i (cbs : list callback) (s : state), stop s = false ->
+    exists lt lv,
+      trace (fst (gen_fit_body state callback assign_local_epoch (@stop P G V O C) (run_epoch Train) (run_epoch Valid)
+                               (fun i cb s => run_cb i cb s) i cbs s)) =
+        trace s ++ [EvLocal (S i)] ++ lt ++ lv ++ map EvCb (seq 0 (length cbs)) /\
+      Forall (fun e => epoch_event Train e = true) lt /\
+      Forall (fun e => epoch_event Valid e = true) lv.
+  Proof. exact gen_callbacks_once_in_order. Qed.
 
 End P_C15.
